@@ -2,6 +2,7 @@ import SeqVerif.Base.Proto
 import SeqVerif.Model.WritePath
 import SeqVerif.Model.WPPlain
 import SeqVerif.Model.FileWriter
+import SeqVerif.Model.BulkHandler
 /-!
 Driver for C01.  Requests:
   `wp.run <fix 0|1> <ev;ev;...>`   ev = `B:<docs hex>:<meta hex>` | `T:<docs hex>:<meta hex>:<d|m><k>` | `R`
@@ -11,6 +12,8 @@ Driver for C01.  Requests:
   `replay <meta file hex>`
       -> `ok docsPos=<n> metaPos=<n> entries=<pos>:<ext1>:<len>,...` | `panic`
   `rd <file hex> <offset>`      (ReadDocBlockPayload) -> `ok <hex>` | `err` | `panic`
+  `bulk.h <count> <inflight> <limit> <ctx done from look k|-> <first acknowledged try k|->`   (GrpcV1.Bulk -> .. -> Active.Append)
+      -> `ok <attempt>` | `err ctx` | `err proto` | `err limit` | `spinning`
   `fw.check <start offset> <labels>`  labels: r<off>:<len> w<off>:<0|1> q<off>:<size> n<off> k t<n> b e<0|1> x<off>:<0|1>
       -> `ok path rets=<n> syncs=<n> end=<offset>` | `err step <i>`   (is the logged trace a path of SV.FWr ?)
   `index.k <fix> <events> <ids> <tokens>`  -> `ok blocks=<sorted offsets> fetch=.. search=..` (several index workers)
@@ -74,6 +77,20 @@ def parseLbl (s : String) : Option FWr.Lbl :=
 
 def step (line : String) : String :=
   match fields line with
+  | ["bulk.h", count, infl, lim, cx, ak] =>
+    let optNat (s : String) : Option (Option Nat) := if s = "-" then some none else s.toNat?.map some
+    match count.toNat?, infl.toNat?, lim.toNat?, optNat cx, optNat ak with
+    | some count, some infl, some lim, some cx, some ak =>
+      let e : BulkH.Env :=
+        ⟨fun i => match cx with | some k => decide (k ≤ i) | none => false,
+         fun i => match ak with | some k => if k ≤ i then .acked else .notWritable | none => .notWritable, infl, lim⟩
+      match BulkH.doBulk 100000 count e with
+      | .ok k => s!"ok {k}"
+      | .ctxErr => "err ctx"
+      | .protoErr => "err proto"
+      | .limitErr => "err limit"
+      | .spinning => "spinning"
+    | _, _, _, _, _ => "bad-op"
   | ["fw.check", start, lbls] =>
     match start.toNat?, (splitList lbls).mapM parseLbl with
     | some start, some tr =>
